@@ -1172,6 +1172,7 @@ struct Runner {
           }
           case kOptTrySIX: {
             L.outstanding++;
+            bool converted = false, converted_to_six = false;
             CallInfo ci = pre_call(L, "TryLockSIX", kNone);
             {
               SIXG g = og.TryLockSIX();
@@ -1183,15 +1184,35 @@ struct Runner {
               if (ok) {
                 Slots<SIXG> s;
                 manipulate(L, g, s, static_cast<int>(op.b));
-                read_payload_locked(L, 0, kSIX, false);
+                const uint32_t seen = read_payload_locked(L, 0, kSIX, (op.a & 1) != 0);
                 check_version_quiescent(L, "TryLockSIX");
-                sx_pre_release(L, kSIX, "release SIX");
+                if (op.a & 1) {
+                  // the grant obtained through TryLockSIX is converted further: UpgradeToX, write, release (or DowngradeToSIX first)
+                  converted = true;
+                  uint32_t acquired = 0;
+                  XG x = upgrade(L, *s.cur, seen, &acquired);
+                  if (acquired != carried) {
+                    ORACLE("[C03][C09]", "trylocksix-upgrade-guard-version", " :: TryLockSIX succeeded with version %u but the upgraded XGuard reports %u", carried, acquired);
+                  }
+                  write_payload(L, 0);
+                  if (op.a & 2) {
+                    SIXG six2 = downgrade(L, x, acquired, op.c);
+                    check_version_quiescent(L, "DowngradeToSIX");
+                    read_payload_locked(L, 0, kSIX, true);
+                    sx_pre_release(L, kSIX, "release SIX");
+                    converted_to_six = true;
+                  } else {
+                    x_pre_release(L, x, acquired, op.c);
+                  }
+                } else {
+                  sx_pre_release(L, kSIX, "release SIX");
+                }
               } else {
                 expect_bool(g, false, "failed-TryLockSIX-result");
                 dsim::op_begin("destroy empty guard", L.idx);
               }
             }
-            sx_post_release(L);
+            if (converted && !converted_to_six) x_post_release(L); else sx_post_release(L);
             break;
           }
           default: {  // kOptTryX
